@@ -139,8 +139,11 @@ SERVER_SEND = (
 REGISTER = ("register_control", "register_filter", "register_auth_credential")
 
 
-def build_call(method, a):
-    """Return (args, kwargs) for session.<method> from abstract args `a`."""
+def build_call(method, a, pool=None):
+    """Return (args, kwargs) for session.<method> from abstract args `a`.
+
+    `pool`: per-world dict of library objects that the simulated application keeps and reuses across calls (an
+    application may build a PartialAttribute once and update its `values` list in place between calls)."""
     if method == "bind_simple":
         return (), dict(dn=a.get("dn"), password=a.get("password"), controls=build_controls(a.get("controls")))
     if method == "bind_sasl":
@@ -193,7 +196,17 @@ def build_call(method, a):
             controls=build_controls(a.get("controls")),
         )
     if method == "search_result_entry":
-        attrs = [sansldap.PartialAttribute(name=x["name"], values=[_bx(v) for v in x["values"]]) for x in a["attributes"]]
+        attrs = []
+        for x in a["attributes"]:
+            key = x.get("pool")
+            if pool is not None and key is not None and key in pool and pool[key].name == x["name"]:
+                obj = pool[key]
+                obj.values[:] = [_bx(v) for v in x["values"]]  # same object as in an earlier call, list updated in place
+            else:
+                obj = sansldap.PartialAttribute(name=x["name"], values=[_bx(v) for v in x["values"]])
+                if pool is not None and key is not None:
+                    pool[key] = obj
+            attrs.append(obj)
         return (a["id"], a["object_name"], attrs), dict(controls=build_controls(a.get("controls")))
     if method == "search_result_reference":
         return (a["id"], list(a["uris"])), dict(controls=build_controls(a.get("controls")))
@@ -583,10 +596,14 @@ class Gen:
 
     def a_entry(self, mid):
         r = self.r
-        return {"id": mid, "object_name": self.text(),
-                "attributes": [{"name": r.choice(ATTRS), "values": [self.blob() for _ in range(r.choice([0, 1, 1, 3]))]}
-                               for _ in range(r.choice([0, 1, 2, 4]))],
-                "controls": self.controls()}
+        attrs = [{"name": r.choice(ATTRS), "values": [self.blob() for _ in range(r.choice([0, 1, 1, 3]))]}
+                 for _ in range(r.choice([0, 1, 2, 4]))]
+        if r.random() < 0.35:
+            # an attribute object the application keeps and updates in place from one entry to the next
+            k = r.choice(["p0", "p1"])
+            attrs.insert(r.randrange(len(attrs) + 1), {"name": {"p0": "member", "p1": "cn"}[k], "pool": k,
+                                                       "values": [self.blob() for _ in range(r.choice([0, 1, 2]))]})
+        return {"id": mid, "object_name": self.text(), "attributes": attrs, "controls": self.controls()}
 
     def a_reference(self, mid):
         r = self.r
